@@ -60,10 +60,10 @@ CLAIMED = {
              "rebuild_indexes persists the header (old wal_sequence) inside the replay window, so a crash between the two header writes duplicates the replayed frames.",
         design_ref="DESIGN.md §4 C04"),
     "C06": dict(
-        technique="crate-wide who-may-mutate scan of Toc.frames (resolved callees through &mut borrows) + data-dependence of Frame.id + must-pass-through for the pending counter",
+        technique="crate-wide who-may-mutate scan of Toc.frames (resolved callees through &mut borrows) + data-dependence of Frame.id + must-pass-through for the pending counter + wrapper-aware site discovery (a local function that appends on every Ok path is the append for its callers)",
         text="Partial: Toc.frames is structurally mutated at exactly one site (push in apply_records; every other &mut use is element access; never replaced; Frame.id never "
              "stored; Frame constructed only at reviewed sites), the pushed id is toc.frames.len() re-read in the same loop iteration, every successful insert append in "
-             "put_internal increments pending_frame_inserts before the next append/Ok, the counter is reset only after apply_records, next_frame_id reads len + counter only.",
+             "put_internal increments pending_frame_inserts before the next append/Ok, the counter is reset only after apply_records, next_frame_id reads len + counter only. A tombstone append never advances the counter (the counter counts inserts); append sites are recognised through thin wrappers.",
         note="Not decided: equality of next_frame_id() with the id later assigned across auto-checkpoints and reopen (value reasoning over histories).",
         design_ref="DESIGN.md §4 C06"),
     "C08": dict(
@@ -110,22 +110,22 @@ CLAIMED = {
         note="Not decided: that the card's value occurs in the frame text. The rule found a genuine defect at four sinks (parent_seq as FrameId), repaired by fix commit 21b3024.",
         design_ref="DESIGN.md §4 C26"),
     "C40": dict(
-        technique="explicit data flow of IngestionDelta.inserted_embeddings in every apply_records caller; string-literal protocol agreement between WAL and its growth arm; batch protocol dominance",
+        technique="explicit data flow of IngestionDelta.inserted_embeddings in every apply_records caller; string-literal protocol agreement between WAL and its growth arm; batch protocol dominance + ordered step-sequence agreement of the WAL-growth siblings",
         text="Partial: every caller of apply_records hands the applied embeddings to the vector-index builder after the apply; the set of no-space rejection strings "
-             "EmbeddedWal::append_entry can produce equals the set Memvid::append_wal_entry's growth arm matches; begin_batch/end_batch install, flush and reset in order.",
+             "EmbeddedWal::append_entry can produce equals the set Memvid::append_wal_entry's growth arm matches; begin_batch/end_batch install, flush and reset in order. The two WAL-growth siblings run the same ordered steps and shift the data while header.wal_size still holds the old size.",
         note="Not decided: equality of results between bulk and plain ingestion (values). The rule found a genuine defect (skip-index commit dropped embeddings), repaired by fix commit e30c60f.",
         design_ref="DESIGN.md §4 C40"),
     "C24": dict(
-        technique="guard-edge dominance of every WAL append by the capacity comparison + coupling check (fields read by the guard vs fields advanced on the acknowledged path, through callee bodies)",
+        technique="guard-edge dominance of every WAL append by the capacity comparison + coupling check (fields read by the guard vs fields advanced on the acknowledged path, through callee bodies) + field-read coverage of the usage seed",
         text="Partial: every WAL append in put_internal is dominated by projected <= capacity_limit() with the failing edge returning CapacityExceeded, projected includes the "
-             "incoming payload, capacity_limit is ticket-or-tier, cached_payload_end is monotone; and the usage counter the guard reads must be advanced by the put path itself.",
+             "incoming payload, capacity_limit is ticket-or-tier, cached_payload_end is monotone; and the usage counter the guard reads must be advanced by the put path itself. The open-time seed of the usage counter ranges over every frame that owns payload bytes (no Frame field other than payload_offset/payload_length is read).",
         note="Not decided: the numeric bound over histories. Known finding (open): the guard's counter is only advanced at commit, so un-committed puts are not counted. "
              "Untriaged candidate (not armed): enable_vec()/manifest.dimension are stored before the capacity check.",
         design_ref="DESIGN.md §4 C24"),
     "C42": dict(
-        technique="field-store whitelist inside vacuum (+closures), data-flow identity of read/written payload by frame id, must-pass-through",
+        technique="field-store whitelist inside vacuum (+closures), data-flow identity of read/written payload by frame id, must-pass-through + read-before-rewrite and offset-before-advance ordering",
         text="Partial: inside vacuum only Frame.payload_offset/payload_length are stored; the bytes written for a frame are those read for the frame with the same id, "
-             "only on the Active edge, at the running cursor; commit succeeds before any payload moves and Ok is reached only through rebuild_indexes -> sync_all.",
+             "only on the Active edge, at the running cursor; commit succeeds before any payload moves and Ok is reached only through rebuild_indexes -> sync_all. The new offset is the cursor before it is advanced past the payload, and every payload is read before the first one is rewritten in place.",
         note="Not decided: byte equality of content, equality of search/timeline results, crash-atomicity of the in-place rewrite.",
         design_ref="DESIGN.md §4 C42"),
     "C13": dict(
@@ -137,7 +137,7 @@ CLAIMED = {
     "C14": dict(
         technique="enum-arm payload-use analysis vs call-graph reachability of each representation's builder (per configuration) + data-flow wiring of build_vec_artifact / update_frame / apply_records",
         text="Partial: a VecIndex representation whose entries/embedding_for/remove arms ignore the payload must have no builder reachable from the Memvid API in the analysed "
-             "configuration; build_vec_artifact = active(existing entries) + new docs and its result is installed; updates carry the old embedding; apply_records records the embedding under the pushed id.",
+             "configuration; build_vec_artifact = active(existing entries) + new docs and its result is installed; updates carry the old embedding; apply_records records the embedding under the pushed id. Reachable representations are derived from the VecIndex::<Variant> constructions reachable from the API.",
         note="Not decided: membership over histories (values). Thorough tier also analyses the `wide` feature configuration, where the Hnsw representation is reachable (known finding, config=wide).",
         design_ref="DESIGN.md §4 C14"),
     "C07": dict(
@@ -156,16 +156,16 @@ CLAIMED = {
         note="Not decided: completeness (every active document frame exactly once). The rule found a genuine defect (unsorted vector consumed), repaired by fix commit f554041.",
         design_ref="DESIGN.md §4 C15"),
     "C20": dict(
-        technique="stored-checksum use analysis: comparison of Frame.checksum with blake3(payload) must gate the serving path and verify(deep); edge-cut must-pass-through in read_toc and the track loaders",
+        technique="stored-checksum use analysis: comparison of Frame.checksum with blake3(payload) must gate the serving path and verify(deep); edge-cut must-pass-through in read_toc and the track loaders + digest-coverage rule for the WAL record header",
         text="Partial (checksum use): read_frame_payload_bytes returns Ok only past blake3(buf) == frame.checksum, verify(deep) reads every active payload through that comparison, "
              "raw readers that bypass it are reported; read_toc returns Ok only through footer decode, toc_len equality, hash_matches, verify_toc_prefix and Toc::decode; track loaders "
-             "deserialise only past their checksum comparison. The evidence lists stored index-manifest checksums that no code compares (information only).",
-        note="Not decided: detection of every single-byte corruption. Fix commit 34d4061 added the payload comparison; known finding (open): blob_reader streams Plain payloads unchecked.",
+             "deserialise only past their checksum comparison. The evidence lists stored index-manifest checksums that no code compares (information only). The WAL record digest must depend on every header field its reader acts on (sequence).",
+        note="Not decided: detection of every single-byte corruption. Fix commit 34d4061 added the payload comparison; known finding (open): blob_reader streams Plain payloads unchecked. Known finding (open): the WAL record digest covers the payload only, so a flipped sequence byte of a checkpointed record makes open replay it.",
         design_ref="DESIGN.md §4 C20"),
     "C30": dict(
-        technique="writer/reader layout agreement recovered from MIR with a constant evaluator (field -> offset/width/endianness maps; ordered item lists for streamed layouts) + edge-cut must-pass-through in Toc::decode",
+        technique="writer/reader layout agreement recovered from MIR with a constant evaluator (field -> offset/width/endianness maps; ordered item lists for streamed layouts) + edge-cut must-pass-through in Toc::decode + writer/reader order-contract agreement for the time index",
         text="Partial (layout agreement): header and footer field maps recovered from encode equal those recovered from decode, cover every field, are disjoint and inside the fixed "
-             "size, with the same validated fields; the time-index item list written equals the list read and hashed; Toc::decode returns Ok only on the bytes_read == len edge in all three format arms.",
+             "size, with the same validated fields; the time-index item list written equals the list read and hashed; Toc::decode returns Ok only on the bytes_read == len edge in all three format arms. The time-index writer sorts by (timestamp, frame_id) and the reader validates exactly that order.",
         note="Not decided: round-trip equality for arbitrary values; bincode/serde themselves (external).",
         design_ref="DESIGN.md §4 C30"),
     "C17": dict(
@@ -184,23 +184,23 @@ CLAIMED = {
              "(reported, not verdicts): footer realignment reachable from search/open_read_only via init_tantivy; begin_batch writes without a guard.",
         design_ref="DESIGN.md §4 C18"),
     "C32": dict(
-        technique="call-graph cycle analysis with guarded-edge removal (depth guard = counter-vs-constant comparison + InvalidQuery + increment), precedence-ladder call layering, enum-arm table for Expr::evaluate",
+        technique="call-graph cycle analysis with guarded-edge removal (depth guard = counter-vs-constant comparison + InvalidQuery + increment), precedence-ladder call layering, enum-arm table for Expr::evaluate + loop-carried self-wrapping detection for the expression tree depth",
         text="Partial: every recursion cycle among the functions reachable from parse_query is cut by a depth guard, the OR/AND/NOT consumers call each other in precedence order, "
-             "and Expr::evaluate maps Or/And/Not/Term to any/all/negation/delegation.",
+             "and Expr::evaluate maps Or/And/Not/Term to any/all/negation/delegation. No loop wraps an Expr into a recursive variant around its own previous value without the depth guard (the flattening idiom of And/Or is recognised).",
         note="Not decided: substring/phrase/field matching semantics (values), tokenizer totality. The rule found a genuine defect (unbounded recursion), repaired by fix commit 8cd7524.",
         design_ref="DESIGN.md §4 C32"),
     "C22": dict(
-        technique="two Engler-style checkers over the 900+ functions reachable from the untrusted-input entry points: explicit-assertion reachability (macro provenance) and range check of file-derived allocation sizes",
+        technique="two Engler-style checkers over the 900+ functions reachable from the untrusted-input entry points: explicit-assertion reachability (macro provenance) and range check of file-derived allocation sizes + guarded-subtraction checker for file-derived subtrahends",
         text="Partial: no explicit assertion macro is reachable from open/verify/doctor/read entry points except reviewed sites; every allocation sized by a file-derived integer is "
-             "bounded by a constant, the file length, a clamp or a validator on its path.",
+             "bounded by a constant, the file length, a clamp or a validator on its path. Every unsigned subtraction whose subtrahend is read from the file is dominated by a b <= a edge for the same a, clamped with min(), or the minuend was formed by adding that value.",
         note="Not decided: panic-freedom of indexing/arithmetic sites, termination. The rule found a genuine defect (doctor debug_assert on pending WAL records), repaired by fix commit 706186b. "
              "Untriaged candidate: debug_assert_eq on vector lengths in simd (debug builds only).",
         design_ref="DESIGN.md §4 C22"),
     "C27": dict(
-        technique="sibling agreement on normalised HIR trees (alpha-renamed closures) + stage-set comparison + wrapper argument flow",
+        technique="sibling agreement on normalised HIR trees (alpha-renamed closures) + stage-set comparison + wrapper argument flow + loader-before-replay ordering in open_locked + dirty-after-commit reachability in put_internal",
         text="Partial (sibling agreement): get_at_time equals get_current plus exactly one stage - filter(effective_timestamp() <= timestamp) over all cards before the ordering; both "
-             "use the same descending effective_timestamp comparator and the same !is_retracted selection; the Memvid wrappers pass their own arguments through.",
-        note="Not decided: persistence round-trip of cards and logic mesh (values). Structural comparison fails closed if the two functions are rewritten with a mechanism the rule does not recognise.",
+             "use the same descending effective_timestamp comparator and the same !is_retracted selection; the Memvid wrappers pass their own arguments through. Every track that rebuild_indexes re-persists from memory is loaded before the open-time WAL replay; a card mutation that can follow the in-call auto-checkpoint commit is followed by dirty = true.",
+        note="Not decided: persistence round-trip of cards and logic mesh (values). Structural comparison fails closed if the two functions are rewritten with a mechanism the rule does not recognise. The two persistence rules found genuine defects (cards and logic mesh wiped by crash recovery; cards of the put that trips the auto-checkpoint lost at close), repaired by fix commits a5dcaff and 3ff7316.",
         design_ref="DESIGN.md §4 C27"),
     "C31": dict(
         technique="MIR dominance / edge-cut reachability in find_last_valid_footer + data-dependence of the hashed slice, returned slice and offsets + monotone-scan shape",
@@ -209,9 +209,9 @@ CLAIMED = {
         note="Not decided: the loop-invariant argument that the first accepted candidate ends at the highest offset, beyond these shape facts.",
         design_ref="DESIGN.md §4 C31"),
     "C39": dict(
-        technique="expression-family agreement of Bloom bit positions (shift constants), shared tokenizer/hash reachability, writer/reader field-coverage analysis of the sketch track",
+        technique="expression-family agreement of Bloom bit positions (shift constants), shared tokenizer/hash reachability, writer/reader field-coverage analysis of the sketch track + loop-exit analysis of the filter insertion loop",
         text="Partial: probe bit positions are a subset of written positions with the same addressing; index and query sides share tokenize_for_sketch and hash_token; every "
-             "SketchEntry field the track reader reconstructs must come from written bytes (a field synthesised from the loop index requires a dense writer); header widths agree.",
+             "SketchEntry field the track reader reconstructs must come from written bytes (a field synthesised from the loop index requires a dense writer); header widths agree. The insertion loop of build_term_filter exits only on iterator exhaustion and every iteration sets its bit positions.",
         note="Not decided: filter false-positive behaviour, simhash values. Known finding (open): frame_id is not serialised and is rebuilt from the entry position.",
         design_ref="DESIGN.md §4 C39"),
     "C02": dict(
@@ -225,25 +225,25 @@ CLAIMED = {
              "repaired by fix commit d68ec9b. Known finding (open, feature replay): save_replay_sessions overwrites the committed TOC/footer in place.",
         design_ref="DESIGN.md §4 C02"),
     "C19": dict(
-        technique="interprocedural path-provenance analysis of every file-system creation sink reachable from the public API (backward slices through local callees), RAII pairing of the staging object, dominance of ensure_single_file before the first open",
+        technique="interprocedural path-provenance analysis of every file-system creation sink reachable from the public API (backward slices through local callees), RAII pairing of the staging object, dominance of ensure_single_file before the first open + edge-cut reachability inside ensure_single_file (only the None arm of Path::parent may bypass the probes)",
         text="Partial: every file/dir creation reachable from the Memvid API takes the memory path itself, a system-temp path or the atomic staging object; paths derived from the memory "
              "path by with_extension/set_extension/with_file_name/join/push/format! are sidecars and are reported; constructors and doctor call ensure_single_file (eight forbidden names) "
-             "before the first open.",
+             "before the first open. ensure_single_file reaches Ok only through the probes or when path.parent() itself is None.",
         note="Not decided: what external crates create internally (atomic-write-file's temporary sibling, Tantivy's work directory under the system temp dir). thorough tier analyses the wide "
              "feature configuration, where replay/parallel_segments sidecars are findings.",
         design_ref="DESIGN.md §4 C19"),
     "C23": dict(
-        technique="taint analysis on type-checked MIR: nondeterminism sources (clock, RNG, UUID, Tantivy segment snapshot) to persisted aggregates and file writes, with the explicit-input override idiom as the only sanitizer; type-graph scan of the persisted roots for serde-serialised RandomState collections (derive list / serde(skip) read from the struct source, since macro expansion removes helper attributes from the HIR)",
+        technique="taint analysis on type-checked MIR: nondeterminism sources (clock, RNG, UUID, Tantivy segment snapshot) to persisted aggregates and file writes, with the explicit-input override idiom as the only sanitizer; type-graph scan of the persisted roots for serde-serialised RandomState collections (derive list / serde(skip) read from the struct source, since macro expansion removes helper attributes from the HIR) + iteration-order rule (no file write / position store inside a loop over a RandomState iterator)",
         text="Partial: with an explicit timestamp, no clock/RNG/UUID value reaches WalEntryData/Frame fields or bytes written to the memory file on the put path; the clock feeds the "
-             "timestamp only as the default of options.timestamp; no serde-serialised type reachable from the persisted roots holds a HashMap/HashSet field that is not skipped.",
+             "timestamp only as the default of options.timestamp; no serde-serialised type reachable from the persisted roots holds a HashMap/HashSet field that is not skipped. No loop driven by HashMap/HashSet iteration writes the file or assigns file positions.",
         note="Not decided: byte identity (runtime). Known finding (open): Tantivy segment names (random UUIDs) and snapshot bytes are embedded in the file, so two identical histories differ "
              "in bytes. The type rule found a genuine defect (memories-track maps serialised in HashMap order), repaired by fix commit 00289e5.",
         design_ref="DESIGN.md §4 C23"),
     "C28": dict(
-        technique="edge-cut reachability on the tantivy_dirty test in rebuild_indexes, data-dependence agreement between the bytes persisted and the bytes decoded into the installed in-memory index, sibling agreement of commit-side and reopen-side decoders",
+        technique="edge-cut reachability on the tantivy_dirty test in rebuild_indexes, data-dependence agreement between the bytes persisted and the bytes decoded into the installed in-memory index, sibling agreement of commit-side and reopen-side decoders + sibling agreement of range-end comparisons",
         text="Partial: the incremental Tantivy arm is reachable only when no provisional instant-index entries exist; the in-memory lex/vec indexes a commit installs are decoded from the "
              "very artifact bytes it persists and whose length/checksum it records; the reopen path decodes with the same decoder at the manifest's offset/length; put_internal's instant "
-             "index marks tantivy_dirty.",
+             "index marks tantivy_dirty. Every comparison of a range end (offset + length) with footer_offset / the file length uses end > limit to reject (sibling agreement, closures resolved through their call sites).",
         note="Not decided: equality of query answers before and after reopen (values); Tantivy's own persistence.",
         design_ref="DESIGN.md §4 C28"),
     "C29": dict(
